@@ -9,7 +9,7 @@ root="/tmp/mutcheck.$$"
 wt="$root/repo"; vf="$root/verif"
 mkdir -p "$root"
 git -C /repo worktree add --detach "$wt" HEAD -q || exit 2
-( cd "$wt" && git apply "$patch" ) || { echo "patch does not apply"; git -C /repo worktree remove --force "$wt"; rm -rf "$root"; exit 2; }
+( cd "$wt" && ( git apply "$patch" || git apply --3way "$patch" ) ) || { echo "patch does not apply"; git -C /repo worktree remove --force "$wt"; rm -rf "$root"; exit 2; }
 mkdir -p "$vf"
 rsync -a --exclude .build --exclude replays --exclude '*.vo' --exclude '*.glob' --exclude '*.aux' --exclude '.git' /verif/ "$vf/"
 # reuse the compiled Coq development and runner (they do not depend on the patch unless constants change)
